@@ -26,6 +26,8 @@ ATTRIBUTION = [
     ("estimate-not-a-bound", "no-radial-screen"),
     ("closed-form-conditioning", "quadrature-only"),
     ("tailcut-left-end+quadrature-premature-acceptance", "no-tail-cut-finest-level"),
+    ("tailcut-left-end+estimate-not-a-bound", "no-tail-cut+no-radial-screen"),
+    ("tailcut-left-end+closed-form-conditioning+estimate-not-a-bound+quadrature-premature-acceptance", "quadrature-only-finest"),
 ]
 
 
